@@ -280,8 +280,25 @@ def rule_terminal_lexing(rep: Report, idx) -> None:
 	scratch = Report('C13', rep.tier)
 	c13.rule_quote_escape(scratch, idx.mod(c13.TOKENIZER_PY))
 	rep.consulted(c13.TOKENIZER_PY)
+	# where the scan resumes after an escaped candidate matters for closers longer than one character only; the grammar tokenizer's closers are read
+	# from data/syntax/gram_tokenizer.py
+	gt = idx.mod('data/syntax/gram_tokenizer.py')
+	rep.consulted(gt.relpath)
+	closers: list[str] | None = None
+	for n in ast.walk(gt.func('gram_tokenizer').node) if gt.func('gram_tokenizer') is not None else []:
+		if isinstance(n, ast.Assign) and isinstance(n.targets[0], ast.Attribute) and n.targets[0].attr == 'quote' and isinstance(n.value, ast.ListComp) and isinstance(n.value.generators[0].iter, (ast.List, ast.Tuple)):
+			vals = [e.value for e in n.value.generators[0].iter.elts if isinstance(e, ast.Constant) and isinstance(e.value, str)]
+			if len(vals) == len(n.value.generators[0].iter.elts) and isinstance(n.value.elt, ast.Call) and len(n.value.elt.args) == 2 and unparse(n.value.elt.args[1]) == unparse(n.value.generators[0].target):
+				closers = vals
 	for rule in scratch.rules:
 		for o in rule.obligations:
+			if o.key == 'scan-resumes-one-past-candidate':
+				if closers is not None and all(len(c_) == 1 for c_ in closers):
+					r.ok(o.key, (gt.relpath, 1), message=f'the closers of the grammar tokenizer are single characters ({closers}): the resume position after an escaped candidate is index + 1 either way')
+					continue
+				if closers is None and o.status == 'violated':
+					r.skip(o.key, (gt.relpath, 1), 'closers of the grammar tokenizer not read from gram_tokenizer()')
+					continue
 			if o.status == 'violated':
 				r.violate(o.key, (o.file, o.line), o.message, o.fragment)
 			elif o.message.startswith('NOT EVALUATED'):
